@@ -1,6 +1,7 @@
 package vs
 
 import (
+	"fmt"
 	"runtime"
 	rsync "sync"
 )
@@ -330,3 +331,47 @@ func (m *Map) LoadAndDelete(k any) (any, bool)  { Point(); return m.m.LoadAndDel
 func (m *Map) Delete(k any)                     { Point(); m.m.Delete(k) }
 //go:norace
 func (m *Map) Range(f func(k, v any) bool)      { Point(); m.m.Range(f) }
+
+// MapKeys returns the keys of m in a canonical order (sorted by their %v rendering) permuted by MapOrder: the iteration
+// order of a map the rewriter was told about (flag maprange=...) is an environment answer the harness owns. MapOrder gets
+// the number of keys and returns a permutation of 0..n-1 (nil = canonical order).
+var MapOrder func(n int) []int
+
+//go:norace
+func MapKeys[K comparable, V any](m map[K]V) []K {
+	keys := make([]K, 0, len(m))
+	for k := range m {
+		keys = append(keys, k)
+	}
+	names := make([]string, len(keys))
+	for i, k := range keys {
+		names[i] = fmt.Sprintf("%v", k)
+	}
+	// insertion sort on (name, key): maps here are small
+	for i := 1; i < len(keys); i++ {
+		for j := i; j > 0 && names[j] < names[j-1]; j-- {
+			names[j], names[j-1] = names[j-1], names[j]
+			keys[j], keys[j-1] = keys[j-1], keys[j]
+		}
+	}
+	if MapOrder != nil {
+		if perm := MapOrder(len(keys)); perm != nil {
+			out := make([]K, len(keys))
+			for i, p := range perm {
+				out[i] = keys[p]
+			}
+			return out
+		}
+	}
+	return keys
+}
+
+// MapOrderReversed is the MapOrder answer "descending".
+//go:norace
+func MapOrderReversed(n int) []int {
+	p := make([]int, n)
+	for i := range p {
+		p[i] = n - 1 - i
+	}
+	return p
+}
